@@ -2,6 +2,8 @@
 
 from __future__ import annotations
 
+import os
+
 import math
 import sys
 import types
@@ -105,7 +107,8 @@ def call_numba_kernel(itg, scalar_type, shape, w, c, x, entity, perm, A0=None):
     rdt = kernels.real_dtype(scalar_type)
     n = int(np.prod(shape)) if shape else 1
     A = np.zeros(n, dtype=sdt) if A0 is None else np.asarray(A0, dtype=sdt).ravel().copy()
-    with np.errstate(all="ignore"):
+    # the generated function runs in plain Python here: large facet kernels can take minutes; budget -> inconclusive (kernels.Timeout)
+    with np.errstate(all="ignore"), kernels.time_limit(float(os.environ.get("VF_NUMBA_PY_TIMEOUT", "60"))):
         itg.tabulate_tensor(A, np.asarray(w, dtype=sdt), np.asarray(c, dtype=sdt), np.asarray(x, dtype=rdt),
                             None if entity is None else np.asarray(entity, dtype=np.intc), None if perm is None else np.asarray(perm, dtype=np.uint8), None)
     return A.reshape(shape)
@@ -275,7 +278,9 @@ def _evaluate_form(spec, wd, real_numba, opts, step):
         if real_numba and "scipy.special.jn(" not in text and "scipy.special.yn(" not in text and not fr.complex:
             # the generated function as numba itself compiles it (cfunc, nopython), called through its C pointer
             try:
-                A_r, nk = real_numba_group(text, names[0][1], fr, itype, sid, ent, data, st_)
+                # numba's own front end is quadratic in the size of table literals: large kernels take many minutes -> budget
+                with kernels.time_limit(float(os.environ.get("VF_NUMBA_COMPILE_TIMEOUT", "150"))):
+                    A_r, nk = real_numba_group(text, names[0][1], fr, itype, sid, ent, data, st_)
             except Exception as e:  # numba typing / lowering errors
                 return viol("numba-compile", f"numba.cfunc(nopython=True) cannot compile kernel ({itype},{sid}) of a form the C backend accepts: "
                             f"{type(e).__name__}: {str(e)[:400]}")
@@ -363,7 +368,7 @@ def shard(shard, nshards, n, seed, n_real=1):
     with scratch(f"vf-c18-{shard}-") as wd:
         drive(strategies.forms(dict(P_FORMS, bessel=have_scipy, int_base_pow=True)), lambda s: evaluate_form(s, wd), n, (PROP, seed, shard, "forms"), res, shrink_calls=30)
         # a sample through numba's own compiler (about 5 s per kernel)
-        small = dict(P_FORMS, bessel=False, max_integrals=2, cells=["interval", "triangle", "quadrilateral", "tetrahedron"])
+        small = dict(P_FORMS, bessel=False, max_integrals=2, cells=["interval", "triangle", "quadrilateral", "tetrahedron"], nonaffine=0.15, maxdeg=2)
         drive(strategies.form_specs(small), lambda s: evaluate_form(s, wd, real_numba=True), n_real, (PROP, seed, shard, "real-numba"), res, shrink_calls=4)
         drive(strategies.expr_specs({"maxdeg": 2, "int_base_pow": True}), lambda s: evaluate_expr(s, wd), max(1, n // 3), (PROP, seed, shard, "exprs"), res, shrink_calls=30)
     return res
